@@ -290,7 +290,33 @@ func c09r4(c *Ctx) {
 			}
 			return false
 		}
-		okR = has(pad-1) && ((has(shiftOf)) || has(pad))
+		// additive constants may be split (x + PADDING - 1): sum them along the additive chain
+		var addSum func(e ast.Expr, sign int64) int64
+		addSum = func(e ast.Expr, sign int64) int64 {
+			e = prog.Unparen(e)
+			if v, isC := prog.ConstInt(info, e); isC {
+				return sign * v
+			}
+			if be, ok := e.(*ast.BinaryExpr); ok {
+				switch be.Op {
+				case token.ADD:
+					return addSum(be.X, sign) + addSum(be.Y, sign)
+				case token.SUB:
+					return addSum(be.X, sign) + addSum(be.Y, -sign)
+				}
+			}
+			return 0
+		}
+		netAdd := false
+		ast.Inspect(f.Decl.Body, func(x ast.Node) bool {
+			if be, ok := x.(*ast.BinaryExpr); ok && (be.Op == token.ADD || be.Op == token.SUB) {
+				if addSum(be, 1) == pad-1 {
+					netAdd = true
+				}
+			}
+			return true
+		})
+		okR = (has(pad-1) || netAdd) && ((has(shiftOf)) || has(pad))
 		c.check(okR, R, f.Key+": rounds up to the block size", f.Pos(), "(+"+itoa(int(pad-1))+")>>"+itoa(int(shiftOf))+"<<"+itoa(int(shiftOf)), "Record.Sizes does not round the record size up to a multiple of PADDING")
 		hdr, _ := constVal(c, "store", "recHeaderSize")
 		c.check(has(hdr) || prog.MentionsConst(info, f.Decl.Body, "store.recHeaderSize"), R, f.Key+": size includes the header", f.Pos(), "header size counted", "Record.Sizes does not add the record header size")
